@@ -633,8 +633,16 @@ func ReturnOperand(ret *ssa.Return, i int) ssa.Value {
 	}
 	// the recover block of a function with a defer returns the cells without a store of its own:
 	// a cell that is assigned once in the whole function holds that value there too
-	if sv := SingleStore(al); sv != nil {
-		return sv
+	if fn := ret.Parent(); fn != nil && ret.Block() == fn.Recover {
+		captured := false
+		for _, r := range *al.Referrers() {
+			if _, isMC := r.(*ssa.MakeClosure); isMC {
+				captured = true
+			}
+		}
+		if sv := SingleStore(al); sv != nil && !captured {
+			return sv
+		}
 	}
 	return v
 }
